@@ -512,3 +512,201 @@ Proof.
     destruct (N.eqb_spec id L_I32) as [->|Hn4]; [|fall_here].
     rd_sc KI32 d2; [cont_sc KI32 | halt_sc KI32 e].
 Qed.
+
+(* ------------------------------------------------------------------ the main match with the flag on *)
+Lemma slow_opt_irrelevant : forall d id ps par t, classify id <> CI32 -> slow true d id ps par t = slow false d id ps par t.
+Proof. intros. unfold slow. destruct (classify id); try congruence; reflexivity. Qed.
+
+Lemma slow_true_i32 : forall d id ps par t, classify id = CI32 ->
+  slow true d id ps par t =
+  do s <- slow false d id ps par t;
+  match s_ps s with
+  | ArrayValue => i32_run (S (length (s_data s))) (s_data s) par (s_tape s)
+  | _ => Ok s
+  end.
+Proof.
+  intros d id ps par t Hc. unfold slow. rewrite Hc.
+  destruct (match ps with ObjectToArray => do t' <- mixed_insert2 t; Ok (ArrayValueMixed, t') | _ => Ok (ps, t) end)
+    as [[ps1 t1]| | | |]; cbn [obind]; try reflexivity.
+  destruct (scalar_arm KI32 d ps1 par t1); reflexivity.
+Qed.
+
+Lemma slow_i32_par : forall d id ps par t s, classify id = CI32 -> slow false d id ps par t = Ok s -> s_par s = par.
+Proof.
+  intros d id ps par t s Hc H. unfold slow in H. rewrite Hc in H.
+  destruct (match ps with ObjectToArray => do t' <- mixed_insert2 t; Ok (ArrayValueMixed, t') | _ => Ok (ps, t) end)
+    as [[ps1 t1]| | | |]; cbn [obind] in H; try discriminate.
+  unfold scalar_arm in H. destruct (read_scalar KI32 d) as [[v r]| | | |]; cbn [obind] in H; try discriminate.
+  rewrite next_state_ok in H. cbn [obind] in H. inversion H; subst. reflexivity.
+Qed.
+
+Definition sim_slow (fx : bool) (s : st) (r : outcome st) : Prop :=
+  match r with
+  | Ok s' => xplus fx s s'
+  | o => halts fx s (obs_of o)
+  end.
+
+Lemma slow_true_sim : forall fx data id d ps par t,
+  read_id data = Ok (id, d) -> sim_slow fx (mkst data ps par t) (slow true d id ps par t).
+Proof.
+  intros fx data id d ps par t Hr.
+  assert (Href : forall o, slow false d id ps par t = o -> sim_slow fx (mkst data ps par t) o).
+  { intros o Ho. destruct o; cbn [sim_slow].
+    - eexists; split; [eapply ref_step; eauto | constructor].
+    - eapply (ref_halt _ _ _ _ _ _ _ (Err e)); eauto.
+    - eapply (ref_halt _ _ _ _ _ _ _ (Panic site)); eauto.
+    - eapply (ref_halt _ _ _ _ _ _ _ (OOB site)); eauto.
+    - eapply (ref_halt _ _ _ _ _ _ _ OutOfFuel); eauto. }
+  destruct (classify id) eqn:Ec;
+    try (rewrite slow_opt_irrelevant by (rewrite Ec; discriminate); now apply Href).
+  rewrite slow_true_i32 by exact Ec.
+  destruct (slow false d id ps par t) as [s1| | | |] eqn:Es; cbn [obind]; try (now apply Href).
+  pose proof (slow_i32_par _ _ _ _ _ _ Ec Es) as Hp.
+  assert (Hst : xstep fx (mkst data ps par t) s1) by (eapply ref_step; eauto).
+  destruct s1 as [d1 ps1 par1 t1]. cbn [s_ps s_data s_tape s_par] in *. subst par1.
+  destruct ps1; try (cbn [sim_slow]; eexists; split; [exact Hst | constructor]).
+  pose proof (i32_run_sim fx (S (length d1)) d1 par t1 (Nat.lt_succ_diag_r _)) as Hrun.
+  destruct (i32_run (S (length d1)) d1 par t1); cbn [sim_slow sim_st] in *;
+    try (eapply halts_step; eauto; fail).
+  eexists; split; eauto.
+Qed.
+
+(* ------------------------------------------------------------------ one optimised iteration *)
+Lemma iter_fx_irrelevant : forall fx s, iter fx false s = iter false false s.
+Proof. intros. unfold iter. destruct (get_split 2 (s_data s)) as [[h d]|]; reflexivity. Qed.
+
+Lemma obs_stop : forall {A} (o : outcome A) r, is_ok o = false -> stop o = Done r -> obs r = obs_of o.
+Proof. intros A o r H E. destruct o; try discriminate; inversion E; reflexivity. Qed.
+
+Lemma after_slow_sim : forall fx s0 data id d ps par t,
+  xstar fx s0 (mkst data ps par t) -> read_id data = Ok (id, d) ->
+  match (match slow true d id ps par t with Ok s' => Continue s' | o => stop o end) with
+  | Continue s' => xplus fx s0 s'
+  | Done r => halts fx s0 (obs r)
+  end.
+Proof.
+  intros fx s0 data id d ps par t Hx Hr.
+  pose proof (slow_true_sim fx data id d ps par t Hr) as Hs.
+  destruct (slow true d id ps par t); cbn [sim_slow stop obs obs_of] in *;
+    try (eapply halts_star; eauto; fail).
+  destruct Hs as (s1 & A & B). inversion Hx; subst.
+  - exists s1. split; auto.
+  - eexists. split; eauto. eapply xstar_trans; eauto. econstructor; eauto.
+Qed.
+
+Lemma iter_sim : forall fx s, Inv s ->
+  match iter fx true s with
+  | Continue s' => xplus fx s s'
+  | Done r => halts fx s (obs r)
+  end.
+Proof.
+  intros fx s HI. unfold iter. destruct (get_split 2 (s_data s)) as [[h d]|] eqn:Eg.
+  - pose proof (split_read_id _ _ _ Eg) as Hr. set (id := le_word 2 h) in *.
+    destruct s as [data ps par t]. cbn [s_data s_ps s_par s_tape andb] in *.
+    destruct (is_key ps) eqn:Ek.
+    + assert (ps = Key) by (destruct ps; try discriminate; reflexivity). subst ps.
+      pose proof (key_fast_sim fx data id d par t Hr (Inv_key_ctx _ HI eq_refl)) as Hk.
+      unfold after_fast.
+      destruct (key_fast fx d id par t) as [[d' ps' par' t'|d' id' ps' par' t']| | | |]; cbn [sim_res stop obs obs_of] in *; auto.
+      destruct Hk as (data' & A & B). eapply after_slow_sim; eauto.
+    + unfold after_fast. eapply after_slow_sim; eauto. constructor.
+  - exists s, (finish s). split; [constructor|]. split; auto. unfold iter. now rewrite Eg.
+Qed.
+
+(* ------------------------------------------------------------------ every step consumes input *)
+Lemma slow_data_le : forall d id ps par t s', slow false d id ps par t = Ok s' -> length (s_data s') <= length d.
+Proof.
+  intros d id ps0 par t0 s' H. unfold slow in H.
+  destruct (match ps0 with ObjectToArray => do t' <- mixed_insert2 t0; Ok (ArrayValueMixed, t') | _ => Ok (ps0, t0) end)
+    as [[ps t]| | | |]; cbn [obind] in H; try discriminate.
+  assert (Hsc : forall k s1, scalar_arm k d ps par t = Ok s1 -> length (s_data s1) <= length d).
+  { intros k s1 Hs. unfold scalar_arm in Hs.
+    destruct (read_scalar_cases k d) as [(v & r & E & L)|(e & E)]; rewrite E in Hs; cbn [obind] in Hs; [|discriminate].
+    rewrite next_state_ok in Hs. cbn [obind] in Hs. inversion Hs; subst. exact L. }
+  assert (Htk : (do ps' <- next_state ps; Ok (mkst d ps' par (push t (TToken id)))) = Ok s' -> length (s_data s') <= length d).
+  { rewrite next_state_ok. cbn [obind]. intro Hs. inversion Hs; subst. cbn. lia. }
+  destruct (classify id); try (eapply Hsc; eauto; fail); try (apply Htk; exact H).
+  - destruct (scalar_arm KI32 d ps par t) eqn:Es; cbn [obind] in H; try discriminate. inversion H; subst. eapply Hsc; eauto.
+  - destruct (negb (is_key ps)); [inversion H; subst; cbn; lia|].
+    destruct t; [discriminate|]. destruct (read_id_cases d) as [(i2 & r2 & E & L)|E]; rewrite E in H; cbn [obind] in H; [|discriminate].
+    destruct (N.eqb i2 L_CLOSE); inversion H; subst. cbn. lia.
+  - destruct (match ps with KeyValueSeparator => mixed_insert1 t | ObjectValue => Err E_Syntax | _ => Ok t end);
+      cbn [obind] in H; try discriminate.
+    destruct (push_end par a) as [[r t']| | | |]; cbn [obind] in H; try discriminate. inversion H; subst. cbn. lia.
+  - destruct ps; try discriminate; try (inversion H; subst; cbn; lia).
+    + destruct (pop t) as [[t1 last]|]; [|discriminate]. destruct (is_array_or_end last); [discriminate|].
+      destruct (only_empties par t1).
+      * destruct (set_parent_to_object par t1); cbn [obind] in H; try discriminate. inversion H; subst. cbn. lia.
+      * inversion H; subst. cbn. lia.
+    + destruct (set_parent_to_object par t); cbn [obind] in H; try discriminate. inversion H; subst. cbn. lia.
+  - destruct ps; try (apply Htk; exact H).
+    destruct (read_scalar_cases KRgb d) as [(v & r & E & L)|(e & E)]; rewrite E in H; cbn [obind] in H; [|discriminate].
+    inversion H; subst. exact L.
+Qed.
+
+Lemma xstep_data_lt : forall fx s s', xstep fx s s' -> length (s_data s') < length (s_data s).
+Proof.
+  intros fx s s' [H|[_ (d & Hr & _ & ->)]].
+  - destruct (get_split 2 (s_data s)) as [[h d]|] eqn:Eg.
+    + rewrite (iter_ref_unfold _ _ _ Eg) in H.
+      destruct (slow false d (le_word 2 h) (s_ps s) (s_par s) (s_tape s)) eqn:Es; try discriminate.
+      inversion H; subst. apply slow_data_le in Es. apply get_split_len in Eg. lia.
+    + unfold iter in H. rewrite Eg in H. discriminate.
+  - cbn. destruct (read_id_cases (s_data s)) as [(i2 & r2 & E & L)|E]; rewrite E in Hr; inversion Hr; subst. lia.
+Qed.
+
+Lemma xstar_data_le : forall fx s s', xstar fx s s' -> length (s_data s') <= length (s_data s).
+Proof. induction 1; auto. apply xstep_data_lt in H. lia. Qed.
+
+Lemma xplus_data_lt : forall fx s s', xplus fx s s' -> length (s_data s') < length (s_data s).
+Proof. intros fx s s' (s1 & A & B). apply xstep_data_lt in A. apply xstar_data_le in B. lia. Qed.
+
+(* ------------------------------------------------------------------ whole runs *)
+Theorem opt_halts : forall fx f s, Inv s -> length (s_data s) < f -> halts fx s (obs (loop fx true f s)).
+Proof.
+  intros fx. induction f; intros s HI Hl; [lia|]. cbn [loop].
+  pose proof (iter_sim fx s HI) as Hs. destruct (iter fx true s) as [s'|r]; auto.
+  pose proof (xplus_data_lt _ _ _ Hs). apply xplus_star in Hs.
+  eapply halts_star; eauto. apply IHf; [eapply xstar_inv; eauto | lia].
+Qed.
+
+Lemma ref_run : forall fx' s s', xstar true s s' -> forall r f, iter false false s' = Done r ->
+  length (s_data s) < f -> loop fx' false f s = r.
+Proof.
+  induction 1; intros r f Hd Hl; (destruct f; [lia|]); cbn [loop]; rewrite iter_fx_irrelevant.
+  - now rewrite Hd.
+  - pose proof (xstep_data_lt _ _ _ H) as Hlt. destruct H as [H|[H _]]; [|discriminate].
+    rewrite H. apply IHxstar; auto. lia.
+Qed.
+
+Lemma iter_ref_done_ok : forall s t, iter false false s = Done (Ok t) -> finish s = Ok t.
+Proof.
+  intros s t H. destruct (get_split 2 (s_data s)) as [[h d]|] eqn:Eg.
+  - rewrite (iter_ref_unfold _ _ _ Eg) in H.
+    destruct (slow false d (le_word 2 h) (s_ps s) (s_par s) (s_tape s)); discriminate.
+  - unfold iter in H. rewrite Eg in H. now inversion H.
+Qed.
+
+Theorem loop_ref_wf : forall fx f s t, Inv s -> loop fx false f s = Ok t -> tape_wf t.
+Proof.
+  intros fx. induction f; intros s t HI H; [discriminate|]. cbn [loop] in H. rewrite iter_fx_irrelevant in H.
+  destruct (iter false false s) as [s'|r] eqn:E.
+  - apply (IHf s'); [eapply iter_ref_inv; eauto | exact H].
+  - subst r. eapply finish_wf; eauto. now apply iter_ref_done_ok.
+Qed.
+
+Theorem parse_wf : forall fx opt d t, parse fx opt d = Ok t -> tape_wf t.
+Proof.
+  intros fx opt d t H. unfold parse in H. destruct opt.
+  - pose proof (opt_halts fx (S (length d)) (init d) (Inv_init d) (Nat.lt_succ_diag_r _)) as Hh.
+    rewrite H in Hh. destruct Hh as (s' & r & A & B & C). destruct r; try discriminate. inversion C; subst.
+    eapply finish_wf; [eapply xstar_inv; eauto; apply Inv_init | now apply iter_ref_done_ok].
+  - eapply loop_ref_wf; eauto. apply Inv_init.
+Qed.
+
+Theorem fast_eq_ref_fixed : forall d, obs (parse true true d) = obs (parse true false d).
+Proof.
+  intro d. unfold parse.
+  pose proof (opt_halts true (S (length d)) (init d) (Inv_init d) (Nat.lt_succ_diag_r _)) as (s' & r & A & B & C).
+  rewrite (ref_run true _ _ A r (S (length d)) B (Nat.lt_succ_diag_r _)). now symmetry.
+Qed.
